@@ -18,9 +18,14 @@ cp "$demo" $W/$demopath
 rm $W/$demopath
 if ! ( cd $W && git apply $out/patch.diff 2>/dev/null ); then
   # /repo has moved on since the change was written (fix: commits): carry it over with a three-way merge
-  ( cd $W && git apply --3way $out/patch.diff >/dev/null 2>&1 && git reset -q ) || { echo "PATCH DOES NOT APPLY (not even three-way)" | tee -a $res; exit 1; }
-  ( cd $W && git diff ) > $out/patch.rebased.diff
-  echo "patch carried over to the current /repo with a three-way merge (patch.rebased.diff)" | tee -a $res
+  if ( cd $W && git apply --3way $out/patch.diff >/dev/null 2>&1 && git reset -q ); then
+    ( cd $W && git diff ) > $out/patch.rebased.diff
+    echo "patch carried over to the current /repo with a three-way merge (patch.rebased.diff)" | tee -a $res
+  elif [ -f $out/patch.rebased.diff ] && ( cd $W && git checkout -q . && git apply $out/patch.rebased.diff 2>/dev/null ); then
+    echo "patch carried over to the current /repo by hand (patch.rebased.diff)" | tee -a $res
+  else
+    echo "PATCH DOES NOT APPLY (not even three-way)" | tee -a $res; exit 1
+  fi
 fi
 ( cd $W && go build ./... ) && echo "builds: yes" | tee -a $res
 ( cd $W && go test -vet=off -count=1 ./... 2>&1 | grep -v "no test files" | grep -v "^ok" ) > /tmp/seed-$pid-$tag-suite.txt; if [ -s /tmp/seed-$pid-$tag-suite.txt ]; then echo "SUITE OUTPUT:"; cat /tmp/seed-$pid-$tag-suite.txt; ( cd $W && go test -vet=off -count=1 ./... 2>&1 | grep -v "no test files" | grep -v "^ok" ) | tee -a $res; else echo "pinned suite with the change: passes" | tee -a $res; fi
